@@ -14,7 +14,7 @@ import math
 import numpy as np
 from scipy.integrate import quad
 
-from .. import cards, yrun
+from .. import cards, rel, yrun
 from ..engine import digest
 
 ID = "C03"
@@ -205,7 +205,7 @@ def execute(st):
         esf = r.observables[name].elements[0]
         elems = cf.Combiner(esf).collect_elems()
     except Exception as e:
-        info = yrun.classify_exception(e)
+        rel.note_failure(e, {k: v for k, v in cell.items() if k != "theory"}, [name])  # anything but an accepted exclusion becomes a violation (engine)
         return {"violations": [], "nontrivial": False, "outcome": [], "transitions": 1, "info": {"n_excluded_by_exception": 1}}
     viol = []
     cellsig = []
